@@ -239,12 +239,60 @@ def _components(text: str) -> tuple[str, set[str]] | None:
     return None
 
 
+_CACHE_DECOS = {"lru_cache", "cache", "cached_property", "functools.lru_cache", "functools.cache", "functools.cached_property"}
+
+
+def _deco_site(prog: Program, fi: FuncInfo) -> MemoSite | None:
+    """`@lru_cache` / `@cache` / `@cached_property`: the key is the tuple of arguments — by value for numbers and strings,
+    by identity (hash) for objects — so whatever the body reads *through* an argument (`context.temperature`, `self.x`,
+    `atoms.get_masses()`) is an input the key does not cover.  cached_property has no key at all besides the object."""
+    names = set()
+    for d in fi.node.decorator_list:
+        f = d.func if isinstance(d, ast.Call) else d
+        names.add(norm(f))
+    hit = names & _CACHE_DECOS
+    if not hit:
+        return None
+    params = [a.arg for a in fi.node.args.posonlyargs + fi.node.args.args + fi.node.args.kwonlyargs]
+    F = _Fn(prog, fi)
+    site = MemoSite(fi, params[0] if params else "", [f"{fi.qualname}()"], fi.node.lineno, "@" + sorted(hit)[0])
+    site.keys = [f"{p} (argument)" for p in params]
+    unc: dict[str, str] = {}
+    body = ast.Module(body=fi.body(), type_ignores=[])
+    for txt, ul, node in _chains(F.inline(body) if False else body, set(params)):
+        if ul or "." not in txt and not txt.endswith("[]"):
+            continue
+        site.deps.append(Dep(txt, getattr(node, "lineno", fi.node.lineno)))
+        cc = _components(txt)
+        if cc:
+            for comp in sorted(cc[1]):
+                if len(cc[1]) > 3 and comp != "masses":
+                    continue
+                unc.setdefault(f"{cc[0]}#{comp}", ATOMS_MUTATOR.get(comp, "a public ASE setter") + " between two calls")
+            continue
+        parts = txt.split(".")
+        if parts[0] == "self" and fi.cls is not None:
+            tgt = prog.lookup(fi.cls, parts[1])
+            if tgt is not None and isinstance(tgt[1], FuncInfo) and tgt[1].kind != "property":
+                continue
+            how = _self_attr_uncovered(prog, fi, parts[1], set())
+            if how:
+                unc.setdefault(".".join(parts[:2]), how)
+            continue
+        unc.setdefault(".".join(parts[:2]), f"assign `{'.'.join(parts[:2])}` between two calls (the cache key holds `{parts[0]}` by identity)")
+    site.uncovered = sorted(unc.items())
+    return site
+
+
 def find_sites(prog: Program) -> list[MemoSite]:
     sites = []
     for fi in prog.iter_functions():
         if fi.name in SKIP_FUNCS:
             continue
         try:
+            ds = _deco_site(prog, fi)
+            if ds is not None:
+                sites.append(ds)
             sites.extend(_sites_in(prog, fi))
         except RecursionError:
             continue
@@ -715,6 +763,19 @@ class Crit:
     def done(self):
         self.slot = None
         return True
+
+
+from functools import lru_cache
+
+
+@lru_cache(maxsize=None)
+def wavelength(context, mass):
+    return mass * context.temperature
+
+
+@lru_cache(maxsize=None)
+def pure(mass, temperature):
+    return mass * temperature
 '''
 
 
@@ -737,7 +798,7 @@ def positive_control() -> None:
     finally:
         shutil.rmtree(tmp, ignore_errors=True)
     got = {k: [d for d, _h in v.uncovered] for k, v in sites.items()}
-    want = {"stale": ["context.temperature"], "fresh": [], "inertia": ["atoms#masses"]}
+    want = {"stale": ["context.temperature"], "fresh": [], "inertia": ["atoms#masses"], "wavelength": ["context.temperature"], "pure": []}
     if got != want:
         raise AnalysisError(f"rule M positive control: detector found {got}, expected {want}")
 
